@@ -17,6 +17,7 @@ type EventFunc = func()
 
 type Session struct {
 	onClose []EventFunc
+	closed  bool // the callbacks have been taken by shutdown
 
 	ctx atomic.Pointer[context.Context]
 
@@ -73,6 +74,12 @@ func (s *Session) Done() <-chan struct{} {
 
 func (s *Session) AddOnClose(f EventFunc) {
 	s.mutex.Lock()
+	if s.closed {
+		// the connection has ended already: nobody will run the list again
+		s.mutex.Unlock()
+		f()
+		return
+	}
 	defer s.mutex.Unlock()
 	s.onClose = append(s.onClose, f)
 }
@@ -82,6 +89,7 @@ func (s *Session) popOnClose() []EventFunc {
 	defer s.mutex.Unlock()
 	tmp := s.onClose
 	s.onClose = nil
+	s.closed = true
 	return tmp
 }
 
